@@ -509,6 +509,11 @@ def directed_cases():
                         'programs': [[['update', [['x', 1], ['y', 2]], 'pairs+kw']], [['get', 'y', None], ['get', 'x', None]]]})
             out.append({'cls': cls, 'max_size': ms, 'on_miss': False, 'prefill': [['a', 0]], 'small': True,
                         'programs': [[['update', [['x', 1], ['y', 2]], 'pairs+kw']], [['set', 'c', 5]]]})
+        # an evicting insert against a thread that asks, with defaults, first for the key being evicted and then for the
+        # key being inserted ("already gone" followed by "not there yet" fits no order of the three operations)
+        for ask in ('pop', 'get'):
+            out.append({'cls': cls, 'max_size': 2, 'on_miss': False, 'prefill': [['a', 0], ['b', 1]], 'small': True,
+                        'programs': [[['set', 'c', 3]], [[ask, 'a', None], [ask, 'c', None]]]})
         # a lookup that misses and computes its value through on_miss, against a writer of the same key
         for look in (['getitem', 'x'], ['get', 'x', None], ['setdefault', 'x', 7]):
             for other in (['set', 'x', 5], ['getitem', 'x']):
